@@ -66,8 +66,13 @@ def sym_array(obj, dtype=None, **kw):
 
 
 def sym_asarray(obj, dtype=None, **kw):
-    if isinstance(obj, SymArray) and dtype is None:
-        return obj
+    if isinstance(obj, SymArray):
+        # numpy.asarray returns the SAME object when no conversion is needed (aliasing matters)
+        if dtype is None:
+            return obj
+        k = _kind_of(dtype)
+        if k in 'cf' and ((k == 'c') == obj.is_complex()):
+            return obj
     return sym_array(obj, dtype)
 
 
